@@ -395,3 +395,32 @@ Fixpoint accepts_from (r : role) (q : nat) (tr : list label) : bool :=
 Definition accepts_local (r : role) (tr : list label) : bool := accepts_from r 0 tr.
 Definition roles : list role := [R_RD; R_RC; R_CW; R_MW; R_SS].
 Definition accepted_by_some_role (tr : list label) : bool := existsb (fun r => accepts_local r tr) roles.
+
+(* ---------- oracles: the properties stated on observations made through the public API *)
+(* C05: obs = the three Err() observations of one run (None = not observed; Some true = non-nil):
+   while a goroutine was still held, after the consumer finished, and a little later *)
+Definition c05_ok (expect_fail : bool) (obs : list (option bool)) : bool :=
+  forallb (fun o => match o with None => true | Some e => Bool.eqb e expect_fail end) obs.
+(* concurrent catcher: g goroutines added m errors each *)
+Definition c05_catcher_ok (g m len nerrors : nat) (has resolve monotone : bool) : bool :=
+  (len =? g * m) && (nerrors =? g * m) && has && resolve && monotone.
+(* C06: goroutines left after Close/cancel, further Next()=true after quiescence, the proved bound, watchdog *)
+Definition c06_ok (leaked further bound : nat) (watchdog : bool) : bool :=
+  (leaked =? 0) && (further <=? bound) && negb watchdog.
+
+(* ---------- model observations *)
+(* run with a consumer that never stops, fairly, to the end: (consumer saw end, an error is registered) *)
+Definition c05_model (c : cfg) (i : input) : bool * bool :=
+  let s0 := init c i in
+  let fuel := S (measure c s0) in
+  let s := consume c (fuel + fuel) (fuel + fuel + fuel) s0 in
+  (match cn s with CN_end => true | CN_run => false end, 0 <? errors_registered c s).
+(* read k items, perform the caller's cancel actions, let the goroutines run (ctx arms first or send arms
+   first): (all goroutines gone, items still buffered, items read before) *)
+Definition c06_model (c : cfg) (i : input) (k : nat) (acts : list tid) (ctx_first : bool) : bool * (nat * nat) :=
+  let s0 := init c i in
+  let fuel := S (measure c s0) in
+  let s1 := consume c k (k + fuel) s0 in
+  let s2 := fold_left (try_step c) acts s1 in
+  let s3 := sweeps c fuel (if ctx_first then gor_tids_ctx_first else gor_tids_send_first) s2 in
+  (all_doneb s3, (buffered c s3, got s1)).
